@@ -31,6 +31,10 @@ package ndjsoncommon
 //@   ensures row_enum:     isSimple(t) && typeof(defOf(t)) == *dsl.EnumDefinition && !defOf(t).(*dsl.EnumDefinition).IsFlags ==> result == JsonString | JsonNumber
 //@   ensures row_flags:    isSimple(t) && typeof(defOf(t)) == *dsl.EnumDefinition && defOf(t).(*dsl.EnumDefinition).IsFlags ==> result == JsonArray | JsonNumber
 //@   ensures row_record:   isSimple(t) && typeof(defOf(t)) == *dsl.RecordDefinition ==> result == JsonObject
+// a type parameter stands for whatever type argument it is given later: the decision made for the generic definition
+// must be right for every instantiation, so the parameter counts as every JSON kind (a union case next to it can never
+// be told apart by JSON type)
+//@   ensures row_type_parameter: isSimple(t) && typeof(defOf(t)) == *dsl.GenericTypeParameter ==> result == JsonNull | JsonBoolean | JsonNumber | JsonString | JsonArray | JsonObject
 //@   ensures row_alias:    isSimple(t) && typeof(defOf(t)) == *dsl.NamedType ==> result == GetJsonDataType(defOf(t).(*dsl.NamedType).Type)
 //@   ensures row_vector:   isGen(t) && typeof(dimOf(t)) == *dsl.Vector ==> result == JsonArray
 //@   ensures row_fixed_array:   isGen(t) && typeof(dimOf(t)) == *dsl.Array && dimOf(t).(*dsl.Array).IsFixed() ==> result == JsonArray
@@ -38,3 +42,6 @@ package ndjsoncommon
 //@   ensures row_map_string_key: isGen(t) && typeof(dimOf(t)) == *dsl.Map && keyIsString(dimOf(t).(*dsl.Map).KeyType) ==> result == JsonObject
 //@   ensures row_map_other_key:  isGen(t) && typeof(dimOf(t)) == *dsl.Map && !keyIsString(dimOf(t).(*dsl.Map).KeyType) ==> result == JsonArray
 //@   ensures never_empty:  result != 0
+
+// Output and diagnostics may not depend on the iteration order of a Go map (C12): decided per `range` over a map.
+//@ map-order C12 package
